@@ -17,6 +17,7 @@ import pydantic
 from packaging import version
 from pydantic import BaseModel
 
+from datamodel_code_generator import Error
 from datamodel_code_generator.util import PYDANTIC_V2, ConfigDict, model_validator
 
 if TYPE_CHECKING:
@@ -174,6 +175,13 @@ class FieldNameResolver:
         self.special_field_name_prefix: str | None = (
             "field" if special_field_name_prefix is None else special_field_name_prefix
         )
+        if not f"{self.special_field_name_prefix}_".isidentifier():
+            # every name built from such a prefix is rejected again by get_valid_name, which would never return
+            msg = (
+                "`--special-field-name-prefix` must be empty or the beginning of a Python identifier: "
+                f"{special_field_name_prefix!r}"
+            )
+            raise Error(msg)
         self.remove_special_field_name_prefix: bool = remove_special_field_name_prefix
         self.capitalise_enum_members: bool = capitalise_enum_members
         self.no_alias = no_alias
